@@ -23,6 +23,20 @@ import (
 	"github.com/gobwas/ws/wsflate"
 )
 
+// idleReader answers (0, nil) on every other call, the underlying reader's answer in between.
+type idleReader struct {
+	r    io.Reader
+	idle bool
+}
+
+func (z *idleReader) Read(p []byte) (int, error) {
+	z.idle = !z.idle
+	if z.idle {
+		return 0, nil
+	}
+	return z.r.Read(p)
+}
+
 // ---- scripted compressor ----
 
 type scriptComp struct {
@@ -293,6 +307,32 @@ func init() {
 		}
 		return fmt.Sprintf("%s got=%s", end, hx(out))
 	}
+	// srz <srchex> <k> <fin> <br> <sizes>: like sr, but the source is IDLE before every chunk - it answers (0, nil), as
+	// wsutil.Reader does after an intermediate control frame or an empty fragment - and the caller reads (cycling
+	// through <sizes>) until an error: a read that returns nothing is not the end of the compressed data
+	ops["srz"] = func(a []string) string {
+		k, _ := strconv.Atoi(a[1])
+		src, _ := mkReader(unhx(a[0]), k, a[2])
+		var r io.Reader = &idleReader{r: src}
+		if a[3] == "1" {
+			r = byteRd{bufio.NewReaderSize(r, 16)}
+		}
+		fr := wsflate.NewReader(r, func(r io.Reader) wsflate.Decompressor { return passDec{r} })
+		var out []byte
+		end := "more"
+		sizes := strings.Split(a[4], "+")
+		for i := 0; i < 20000; i++ {
+			n, _ := strconv.Atoi(sizes[i%len(sizes)])
+			p := make([]byte, n)
+			m, err := fr.Read(p)
+			out = append(out, p[:m]...)
+			if err != nil {
+				end = classify(err)
+				break
+			}
+		}
+		return fmt.Sprintf("%s got=%s", end, hx(out))
+	}
 	ops["fl"] = func(a []string) string {
 		level, _ := strconv.Atoi(a[0])
 		var dst bytes.Buffer
@@ -444,6 +484,12 @@ func init() {
 					return &scriptComp{w: w, ftail: []byte{0, 0, 0xff, 0xfe}}
 				case "shorttail":
 					return &scriptComp{w: w, ftail: []byte{0xff, 0xff}}
+				case "closeextra": // a correct sync flush, but Close finishes the stream its own way (Z_FINISH: 03 00)
+					return scriptCompCloser{&scriptComp{w: w, ftail: []byte{0, 0, 0xff, 0xff}, ctail: []byte{3, 0}}}
+				case "closesum": // ... or appends a checksum (compress/zlib used by mistake)
+					return scriptCompCloser{&scriptComp{w: w, ftail: []byte{0, 0, 0xff, 0xff}, ctail: []byte{0x12, 0x34, 0x56, 0x78}}}
+				case "closegood": // Close ends with an empty stored block, as compress/flate does
+					return scriptCompCloser{&scriptComp{w: w, ftail: []byte{0, 0, 0xff, 0xff}, ctail: []byte{1, 0, 0, 0xff, 0xff}}}
 				default: // "good": passes data through and ends with the tail
 					return &scriptComp{w: w, ftail: []byte{0, 0, 0xff, 0xff}}
 				}
@@ -526,6 +572,12 @@ func genC12(tier string, r *rng) {
 				}
 			}
 		}
+		for _, k := range []int{0, 1, 3} {
+			for _, sizes := range []string{"1", "100", "4+5+9", "0+5"} {
+				run(fmt.Sprintf("srz %s %d E 0 %s", hx(d), k, sizes))
+				run(fmt.Sprintf("srz %s %d Ed 0 %s", hx(d), k, sizes))
+			}
+		}
 		run(fmt.Sprintf("sr %s 2 F 0 100+100+100+100", hx(d)))
 		run(fmt.Sprintf("sr %s 2 Ed 0 100+100+100+100", hx(d)))
 	}
@@ -585,7 +637,7 @@ func genC12(tier string, r *rng) {
 			}
 		}
 	}
-	for _, m := range []string{"notail", "wrongtail", "shorttail", "good"} {
+	for _, m := range []string{"notail", "wrongtail", "shorttail", "good", "closeextra", "closesum", "closegood"} {
 		for _, p := range [][]byte{{}, {1, 2, 3}, {0, 0, 0xff, 0xff}, r.bytes(20)} {
 			run(fmt.Sprintf("badc %s %s", m, hx(p)))
 		}
